@@ -265,7 +265,7 @@ check("vclass plain", c08.vclass("str", "ab"), "str:plain")
 check("vclass None", c08.vclass("int", None), "null")
 check("vclass int bands", [c08.vclass("int", x) for x in (0, -(2**63), 2**63, 2**64 - 1, 2**64, -(2**63) - 1)], ["int:int64", "int:int64", "int:uint64", "int:uint64", "int:pos_over_uint64", "int:neg_over_int64"])  # fmt: skip
 check("vclass float", [c08.vclass("float", x) for x in (-0.0, 0.0, 1e-320, 0.5)], ["float:negzero", "float", "float:subnormal", "float"])  # fmt: skip
-check("case_class", c08.case_class("pyformat_dict", "ins", "str", "\x00"), "pos=ins,bind=client,val=str:nul")
+check("case_class", c08.case_class("pyformat_dict", "ins", "str", "\x00"), "bind=client,val=str:nul")
 check("case_class qmark", c08.case_class("qmark", "sel", "int", 10**30), "pos=sel,bind=server,val=int:pos_over_uint64")
 check("case_class sessvar_pct", c08.case_class("format_seq", "sessvar_pct", "int", 1), "pos=sessvar_pct,bind=client,val=any")
 
